@@ -959,7 +959,7 @@ theorem resEff (s : S) (j : JobId) :
       have hc' := hc
       rw [hwt, hef, hp] at hc'
       simp only [if_true, Bool.and_eq_true, decide_eq_true_eq, Bool.not_eq_true'] at hc'
-      refine ⟨g1, g2, g3, g4, g5, hst, hwt, hef, hpar, htw, Or.inr ⟨par, rfl, hc'.2, hc'.1, by simp [enqueue, g6]⟩, ?_,
+      refine ⟨g1, g2, g3, g4, g5, hst, hwt, hef, hpar, htw, Or.inr ⟨par, hp, hc'.2, hc'.1, by simp [enqueue, g6]⟩, ?_,
         ⟨fun h => by rw [hp] at h; simp at h, fun h => by show s2.finished = true; rw [g7]; exact h⟩⟩
       intro par' h _ _
       rw [hp] at h; simp at h; subst h; simp [enqueue]
@@ -1132,7 +1132,7 @@ theorem rejEff (s : S) (u : JobId) :
       · intro i; simp only [setJob]; split <;> rfl
       · intro par' h h1; rw [hp] at h; simp at h; subst h; rw [hc] at h1; simp at h1
     · rename_i hc
-      refine ⟨rfl, rfl, rfl, rfl, rfl, ?_, ?_, ?_, ?_, ?_, Or.inr ⟨par, rfl, by simpa using hc, rfl⟩, ?_,
+      refine ⟨rfl, rfl, rfl, rfl, rfl, ?_, ?_, ?_, ?_, ?_, Or.inr ⟨par, hp, by simpa using hc, rfl⟩, ?_,
         ⟨fun h => by rw [hp] at h; simp at h, fun h => h⟩⟩
       · intro i; simp only [enqueue, setJob]; split <;> split <;> simp_all
       · intro i; simp only [enqueue, setJob]; split <;> split <;> rfl
